@@ -195,6 +195,11 @@ func (c corridor) distToUnion(p geom.P) float64 {
 // general = true: 6 x 6 start/end positions in general position (off-grid offsets inside the first/last rectangle);
 // general = false: the 9 x 9 degenerate positions (corners, side midpoints, centre) of the first/last rectangle.
 func corridorSpace(kmax int, xs []int, hs []int, general bool) func(emit func(Input)) {
+	return corridorSpaceD(kmax, xs, hs, general, false)
+}
+
+// dense: 15 x 15 instead of 6 x 6 general-position end points per corridor
+func corridorSpaceD(kmax int, xs []int, hs []int, general, dense bool) func(emit func(Input)) {
 	return func(emit func(Input)) {
 		for k := 1; k <= kmax; k++ {
 			L, R, H := make([]int, k), make([]int, k), make([]int, k)
@@ -208,10 +213,15 @@ func corridorSpace(kmax int, xs []int, hs []int, general bool) func(emit func(In
 					ylast := ybot - H[k-1]
 					var sxs, sys, exs, eys []int
 					if general {
-						sxs = []int{L[0]*10 + 13, (L[0]+R[0])*5 + 7, R[0]*10 - 21}
-						sys = []int{23, H[0]*10 - 31}
-						exs = []int{L[k-1]*10 + 17, (L[k-1]+R[k-1])*5 - 9, R[k-1]*10 - 11}
-						eys = []int{ylast*10 + 19, ybot*10 - 27}
+						w0, wk := (R[0]-L[0])*10, (R[k-1]-L[k-1])*10
+						sxs = []int{L[0]*10 + 13, L[0]*10 + w0*3/10 + 3, (L[0]+R[0])*5 + 7, L[0]*10 + w0*7/10 - 3, R[0]*10 - 21}
+						sys = []int{23, H[0]*5 + 7, H[0]*10 - 31}
+						exs = []int{L[k-1]*10 + 17, L[k-1]*10 + wk*3/10 - 7, (L[k-1]+R[k-1])*5 - 9, L[k-1]*10 + wk*7/10 + 9, R[k-1]*10 - 11}
+						eys = []int{ylast*10 + 19, (ylast+ybot)*5 - 11, ybot*10 - 27}
+						if !dense {
+							sxs, sys = []int{sxs[0], sxs[2], sxs[4]}, []int{sys[0], sys[2]}
+							exs, eys = []int{exs[0], exs[2], exs[4]}, []int{eys[0], eys[2]}
+						}
 					} else {
 						sxs = []int{L[0] * 10, (L[0] + R[0]) * 5, R[0] * 10}
 						sys = []int{0, H[0] * 5, H[0] * 10}
@@ -594,6 +604,8 @@ func init() {
 		ps := []*Pass{
 			{Name: "degenerate-k2", Space: corridorSpace(2, []int{0, 10, 20, 30}, []int{10}, false), Eval: evalC19, BudgetS: 3, HeapMB: 48,
 				Bound: "every stack of 1..2 rectangles on a 4-value grid x the 9 x 9 degenerate start/end positions (corners, side midpoints, centres): the known-finding class"},
+			{Name: "general-k3-dense", Space: corridorSpaceD(3, grid5, []int{10}, true, true), Eval: evalC19, BudgetS: 5, HeapMB: 256,
+				Bound: "every well-formed stack of 1..3 rectangles on the 5-value grid x 15 start x 15 end positions in general position"},
 			{Name: "general-k4", Space: corridorSpace(4, grid5, []int{10}, true), Eval: evalC19, BudgetS: 5, HeapMB: 256,
 				Bound: "every well-formed stack of 1..4 rectangles with sides on a 5-value grid (equal edges, widening and narrowing on both sides included) x 6 start x 6 end positions in general position (not collinear with two corridor vertices or with a vertex and the other end point)"},
 		}
